@@ -25,6 +25,15 @@ from pathlib import Path
 VERIF = Path(__file__).resolve().parent.parent
 
 
+
+def _child_env():
+    """environment of the checks the audit starts: never the thorough tier (no audit inside an audit)"""
+    env = dict(os.environ)
+    env.pop("VERIF_TIER", None)
+    env["PYHFSA_IN_AUDIT"] = "1"
+    return env
+
+
 def _scratch_root():
     for base in ("/dev/shm", os.environ.get("TMPDIR", ""), "/var/tmp", "/tmp"):
         if base and os.path.isdir(base) and os.access(base, os.W_OK):
@@ -57,7 +66,7 @@ def _run_variant(v, repo_root):
             except SyntaxError as e:
                 return {**_pub(v), "status": "broken-variant", "why": str(e)}
         cmd = [sys.executable, "-m", "pyhfsa", "check", v["prop"], "--tier", "quick", "--repo", str(tmp), "--no-evidence"]
-        pr = subprocess.run(cmd, cwd=str(VERIF), capture_output=True, text=True, timeout=300)
+        pr = subprocess.run(cmd, cwd=str(VERIF), capture_output=True, text=True, timeout=300, env=_child_env())
         out = pr.stdout
         fired_rules = sorted({ln.split()[1] for ln in out.splitlines() if ln.strip().startswith("rule ")})
         if v["expect"] == "fire":
@@ -79,7 +88,7 @@ def _run_seed(seed_dir, prop, repo_root):
         if pr.returncode != 0:
             return {"seed": seed_dir.name, "status": "skipped", "why": "patch does not apply to this tree"}
         cmd = [sys.executable, "-m", "pyhfsa", "check", prop, "--tier", "quick", "--repo", str(tmp), "--no-evidence"]
-        r = subprocess.run(cmd, cwd=str(VERIF), capture_output=True, text=True, timeout=300)
+        r = subprocess.run(cmd, cwd=str(VERIF), capture_output=True, text=True, timeout=300, env=_child_env())
         fired = sorted({ln.split()[1] for ln in r.stdout.splitlines() if ln.strip().startswith("rule ")})
         return {"seed": seed_dir.name, "status": "detected" if r.returncode == 1 else ("analysis-error" if r.returncode == 2 else "not detected by this check"), "rules": fired}
     finally:
@@ -98,7 +107,8 @@ def run_audit(props, repo_root, jobs=16, into_evidence=False, verbose=False):
     # baseline verdict of each property on this tree (silent variants must reproduce it)
     base = {}
     for p in sorted({v["prop"] for v in todo if v["expect"] == "silent"}):
-        pr = subprocess.run([sys.executable, "-m", "pyhfsa", "check", p, "--repo", str(repo_root), "--no-evidence"], cwd=str(VERIF), capture_output=True, text=True)
+        # always the QUICK tier, whatever VERIF_TIER says in the environment: a thorough child would start its own audit
+        pr = subprocess.run([sys.executable, "-m", "pyhfsa", "check", p, "--tier", "quick", "--repo", str(repo_root), "--no-evidence"], cwd=str(VERIF), capture_output=True, text=True, timeout=600, env=_child_env())
         base[p] = (pr.returncode, sorted({ln.split()[1] for ln in pr.stdout.splitlines() if ln.strip().startswith("rule ")}))
     for v in todo:
         if v["expect"] == "silent":
